@@ -255,14 +255,44 @@ Theorem C14_empty_pattern_rejected :
 Proof. exact empty_pattern_rejected. Qed.
 Print Assumptions C14_empty_pattern_rejected.
 
-(** Still open: a duration written with 20 digits wraps the 64-bit int and is accepted with
-    another value. *)
-Theorem C14_loss_overflow_refuted :
+(** The parser with the range check of proposed_fixes/C14-loss-duration-range.diff
+    ([createLossItvlsB mx], mx = maxLossItvlDurS of the source): what is written with durations
+    1..mx is read back; every accepted pattern has all durations within 1..mx; and for a pattern
+    shorter than 2^32 bytes neither the cycle nor the arithmetic of StateAt can wrap: the cycle is
+    the exact sum of the durations and StateAt is the flattened pattern at (s mod cycle). *)
+Theorem C14_loss_parse_roundtrip_bounded : forall mx, mx * 10 + 9 < two63 -> forall l,
+  Forall (boundedItvl mx) l -> l <> [] -> sumDur l < two63 -> createLossItvlsB mx (printItvls l) = Ok l.
+Proof. exact createLossItvlsB_print. Qed.
+Print Assumptions C14_loss_parse_roundtrip_bounded.
+
+Theorem C14_loss_parse_bounded : forall mx, 0 < mx -> mx * 10 + 9 < two63 -> forall p l,
+  createLossItvlsB mx p = Ok l -> Forall (boundedItvl mx) l /\ l <> [] /\ lenZ l <= lenZ p + 1.
+Proof. exact createLossItvlsB_bounded. Qed.
+Print Assumptions C14_loss_parse_bounded.
+
+Theorem C14_loss_no_overflow : forall p l s,
+  createLossItvlsB maxLossItvlDur p = Ok l -> lenZ p + 1 <= two32 -> 0 <= s ->
+  Forall (boundedItvl maxLossItvlDur) l /\ goodItvls l /\ l <> [] /\ cycleDurS l = sumDur l /\
+  stateAt l s = Ok (nth (Z.to_nat (s mod sumDur l)) (flatten l) LUnknown).
+Proof. exact parse_no_overflow. Qed.
+Print Assumptions C14_loss_no_overflow.
+
+Theorem C14_loss_overflow_rejected :
+  createLossItvlsB maxLossItvlDur (bytesOf "u18446744073709551617") = Err "invalid loss pattern: interval too long" /\
+  createLossItvlsB maxLossItvlDur (bytesOf "u99999999999999999999d1") = Err "invalid loss pattern: interval too long" /\
+  createLossItvlsB maxLossItvlDur (bytesOf "u2147483648") = Err "invalid loss pattern: interval too long" /\
+  createLossItvlsB maxLossItvlDur (bytesOf "u2147483647d1") = Ok [{| l_dur := 2147483647; l_state := LNo |}; {| l_dur := 1; l_state := L404 |}].
+Proof. exact loss_overflow_rejected. Qed.
+Print Assumptions C14_loss_overflow_rejected.
+
+(** The parser before that check ([createLossItvls]): a duration written with 20 digits wraps the
+    64-bit int and is accepted with another value. *)
+Theorem C14_loss_overflow_refuted_before_fix :
   createLossItvls (bytesOf "u18446744073709551617") = Ok [{| l_dur := 1; l_state := LNo |}] /\
   createLossItvls (bytesOf "u99999999999999999999d1")
     = Ok [{| l_dur := 7766279631452241919; l_state := LNo |}; {| l_dur := 1; l_state := L404 |}].
 Proof. exact loss_overflow_refuted. Qed.
-Print Assumptions C14_loss_overflow_refuted.
+Print Assumptions C14_loss_overflow_refuted_before_fix.
 
 (** Non-vacuity.  statuscode_[{cycle:5,rsq:1,code:404}] on 4 x 2 s segments (cycle not divisible by
     the segment duration): cycles start at 0, 5, 10, 15 s; their first segments are 0, 3, 5, 8;
